@@ -75,7 +75,10 @@ func GetCPUPlans(resourceInfo *types.NodeResourceInfo, originCPUMap types.CPUMap
 
 	// get cpu plan for each numa node
 	for numaNodeID, cpuMap := range numaCPUMap {
-		numaCPUPlans := doGetCPUPlans(originCPUMap, cpuMap, availableResource.NUMAMemory[numaNodeID], shareBase, maxFragmentCores, req.CPURequest, req.MemRequest)
+		// plans on a NUMA node consume the node's plain memory too, which can be scarcer than the NUMA memory
+		// (workloads without cpu binding use memory without NUMA accounting)
+		numaMemory := utils.Min(availableResource.NUMAMemory[numaNodeID], availableResource.Memory)
+		numaCPUPlans := doGetCPUPlans(originCPUMap, cpuMap, numaMemory, shareBase, maxFragmentCores, req.CPURequest, req.MemRequest)
 		for _, workloadCPUMap := range numaCPUPlans {
 			cpuPlans = append(cpuPlans, &types.CPUPlan{
 				NUMANode: numaNodeID,
@@ -145,7 +148,7 @@ func doGetCPUPlans(originCPUMap, availableCPUMap types.CPUMap, availableMemory i
 
 	cpuPlans := h.getCPUPlans(cpuRequest)
 	if memoryRequest > 0 {
-		memoryCapacity := int(availableMemory / memoryRequest)
+		memoryCapacity := utils.Max(int(availableMemory/memoryRequest), 0)
 		if memoryCapacity < len(cpuPlans) {
 			cpuPlans = cpuPlans[:memoryCapacity]
 		}
